@@ -194,8 +194,22 @@ int read_header(sqfs_istream_t *fp, tar_header_decoded_t *out)
 		}
 
 		if (is_memory_zero(&hdr, sizeof(hdr))) {
-			if (prev_was_zero)
+			if (prev_was_zero) {
+				/*
+				 * Consume what follows the end-of-archive
+				 * marker, so a wrapping decompressor gets to
+				 * verify the check sums at the end of its
+				 * stream instead of never being asked.
+				 */
+				ret = sqfs_istream_skip(fp, ~((sqfs_u64)0));
+				if (ret < 0) {
+					sqfs_perror(fp->get_filename(fp),
+						    "reading past the end of "
+						    "the archive", ret);
+					goto fail;
+				}
 				goto out_eof;
+			}
 			prev_was_zero = true;
 			continue;
 		}
